@@ -36,7 +36,7 @@ func (r *Rng) Pick(xs []string) string  { return xs[r.Intn(len(xs))] }
 // CanonicalDoc is the fixed core document of Appendix B.
 const CanonicalDoc = `{"nums":[3,1,2,2,-5,10.5],"strs":["b","a","c","a","é"],` +
 	`"objs":[{"k":3,"s":"c","t":[1]},{"k":1,"s":"a","t":[2,3]},{"k":2,"s":"b","t":[]},{"k":1,"s":"a2","t":null}],` +
-	`"mixed":[{"k":1},{"k":"x"},{"k":2},{"k":0}],` +
+	`"mixed":[{"k":1},{"k":"x"},{"k":2},{"k":0}],"mixeds":[{"k":"b"},{"k":"a"},{"k":1},{"k":"c"}],` +
 	`"nested":[[1,2],[3],[],[4,[5]]],"o1":{"a":1,"b":{"c":[1,2]}},"o2":{"b":2,"z":[9]},` +
 	`"s":"héllo","n":-3.5,"t":true,"z":null,"e":[],"eo":{}}`
 
@@ -150,6 +150,24 @@ func Doc(r *Rng) string {
 		}
 	}
 	d["mixed"] = mixed
+	n = 2 + r.Intn(6)
+	mixeds := make([]interface{}, n)
+	bad = 1 + r.Intn(n-1)
+	for i := range mixeds {
+		if i == bad && r.Chance(5, 6) {
+			switch r.Intn(3) {
+			case 0:
+				mixeds[i] = map[string]interface{}{"k": 1.0}
+			case 1:
+				mixeds[i] = map[string]interface{}{"k": nil}
+			default:
+				mixeds[i] = map[string]interface{}{"j": "x"}
+			}
+		} else {
+			mixeds[i] = map[string]interface{}{"k": str(r)}
+		}
+	}
+	d["mixeds"] = mixeds
 	n = arrLen(r) % 8
 	nested := make([]interface{}, n)
 	for i := range nested {
@@ -292,7 +310,7 @@ func (g *G) ArrObj() string {
 	defer g.deeper()()
 	r := g.R
 	if g.leaf() {
-		return r.Pick([]string{"objs", "objs", "objs", "mixed", r.Pick(litArrObj)})
+		return r.Pick([]string{"objs", "objs", "objs", "mixed", "mixeds", r.Pick(litArrObj)})
 	}
 	switch r.Intn(12) {
 	case 0, 1, 2:
@@ -526,6 +544,12 @@ func Systematic() []string {
 		"objs[?k > `1`]", "objs[?k > `1`].s", "objs[?s == 'a']", "nums[?@ > `1`]", "[nums, strs]", "{a: nums, b: o1}", "nums", "@", "o1.b.c", "objs[0]", "objs[-1].t",
 		"`[3,1,2]`", "`{\"a\":[2,1]}`.a", "z", "missing", "nums || strs", "z || objs", "nums && objs", "!nums", "nums == nums", "objs[0] == objs[1]", "o1 != o2",
 		"unknown_fn(nums)", "length(nums, nums)", "sort_by(objs)", "nums[0].x.y", "s[0]", "s.x", "n[?@]", "t.*",
+		"contains(s, `1`)", "sort_by(mixeds, &k)", "max_by(mixeds, &k)", "min_by(mixeds, &k)", "max_by(objs, &abs(s))", "min_by(objs, &abs(s))", "sort_by(objs, &abs(s))",
+		"min_by(objs, &s)", "max_by(objs, &s)", "min_by(mixed, &abs(k))", "max_by(mixed, &abs(k))", "objs[?abs(s)]", "objs[?k].abs(s)", "objs[*].abs(s)", "abs(s).*", "*.abs(@)", "o1.*.abs(@)",
+		"sort_by(mixeds, &abs(k))", "sort_by(strs, &abs(@))", "max(e)", "min(e)", "map(&abs(@), strs)", "nums[?abs(s)]", "[abs(s)]", "{a: abs(s)}", "abs(s) || nums", "abs(s) && nums", "!abs(s)", "abs(s) | nums", "abs(s) == nums", "nums[abs(s)]",
+		"sort_by(`[[\"a\"],[1],[\"b\"]]`, &join('', @))", "max_by(`[[\"a\"],[1],[\"b\"]]`, &join('', @))", "min_by(`[[\"a\"],[1],[\"b\"]]`, &join('', @))",
+		"sort_by(`[[1],[\"a\"],[2]]`, &sum(@))", "max_by(`[[1],[\"a\"],[2]]`, &sum(@))", "min_by(`[[1],[\"a\"],[2]]`, &sum(@))", "to_string(avg(e))", "to_string([avg(e)])",
+		"max_by(strs, &@)", "min_by(strs, &@)", "max_by(mixeds, &length(k))", "sort_by(mixeds, &length(k))",
 	}
 	var out []string
 	seen := map[string]bool{}
@@ -568,4 +592,6 @@ func Systematic() []string {
 }
 
 // BrokenExprs are expressions that fail to compile, used as failing operations.
-var BrokenExprs = []string{"", "foo.", "foo[", "foo(", "a.b.[", "foo(a,", "'abc", "'a\\'b", "\"abc", "`[1,2", "`{bad json}`", "a ! b", "a = b", "[?", "{a:", "{a: b", "a..b", "a[1:2:3:4]", "#", "a | | b", "&", "sort_by(objs, &", "\"\\u12\"", "a.'x'", "\"foo\"(x)", "a[*", "*[", "[*].a.[", "a||", "a&&", "!"}
+var BrokenExprs = []string{"", "foo.", "foo[", "foo(", "a.b.[", "foo(a,", "'abc", "'a\\'b", "\"abc", "`[1,2", "`{bad json}`", "a ! b", "a = b", "[?", "{a:", "{a: b", "a..b", "a[1:2:3:4]", "#", "a | | b", "&", "sort_by(objs, &", "\"\\u12\"", "a.'x'", "\"foo\"(x)", "a[*", "*[", "[*].a.[", "a||", "a&&", "!",
+	"a[99999999999999999999]", "a[1:99999999999999999999]", "[99999999999999999999]", "foo(a b)", "foo(a,)", "foo(,a)", "[a b]", "[a,]", "{a: b c}", "{a: b,}", "{\"a\" b}", "a[?b c]", "a[?b].", "a[?b].[", "a.{", "a.&b", "a[*].&b",
+	"a.\"b\"(c)", "a[?", "a[?b", "[?a]b", "*.[", "*.{", "a.*.[", "(a", "(a b)", "!(", "&(", "a | [", "a[].[", "a[::]x", "a[1 2]", "a[:x]", "a.1", "a.@", "@@", "a `1`", "`1` a", "'x' 'y'", "[]{a: b}", "[]!a", "a[]{b: c}", "a[*]!b", "a[?b]{c: d}", "a.*!b"}
